@@ -117,7 +117,18 @@ def make_base(spec, mixins=()):
                 "time": [mk("time")],
                 "lookup_tables": [],
             }
-            self._path_vars = [mk(n) for n in s.get("path_variables", [])]
+            # "pw#0", "pw#1", ... are the components of the vector path variable "pw"
+            self._vec = {}
+            self._path_vars = []
+            for n in s.get("path_variables", []):
+                if "#" in n:
+                    base, k = n.split("#")
+                    if base not in self._vec:
+                        size = len([x for x in s["path_variables"] if x.startswith(base + "#")])
+                        self._vec[base] = ca.MX.sym(base, size)
+                        self._path_vars.append(self._vec[base])
+                else:
+                    self._path_vars.append(mk(n))
             self._extra_vars = [mk(n) for n in s.get("extra_variables", [])]
             self._alias = AliasRelation()
             for a, b in s.get("aliases", []):
@@ -200,9 +211,23 @@ def make_base(spec, mixins=()):
 
         def bounds(self):
             d = AliasDict(self.alias_relation)
-            for k, (lo, hi) in self._spec.get("bounds", {}).items():
-                d[k] = (conv_bound(lo, Timeseries), conv_bound(hi, Timeseries))
+            b = self._spec.get("bounds", {})
+            for k, (lo, hi) in b.items():
+                if "#" not in k:
+                    d[k] = (conv_bound(lo, Timeseries), conv_bound(hi, Timeseries))
+            for base, sym in self._vec.items():
+                comps = ["%s#%d" % (base, i) for i in range(sym.shape[0])]
+                if any(c in b for c in comps):
+                    # per-component vector bounds
+                    lo = np.array([fl(b[c][0]) if c in b and b[c][0] is not None else -np.inf for c in comps])
+                    hi = np.array([fl(b[c][1]) if c in b and b[c][1] is not None else np.inf for c in comps])
+                    d[base] = (lo, hi)
             return d
+
+        @property
+        def equidistant(self):
+            # what the IO mixins report about their *import* data; says nothing about times()
+            return bool(self._spec.get("equidistant", False))
 
         def history(self, ensemble_member):
             m = ensemble_member
@@ -220,6 +245,10 @@ def make_base(spec, mixins=()):
 
         def variable_nominal(self, variable):
             n = self._spec.get("nominals", {})
+            if variable in self._vec:
+                comps = ["%s#%d" % (variable, i) for i in range(self._vec[variable].shape[0])]
+                if any(c in n for c in comps):
+                    return np.array([float(Fraction(n.get(c, 1))) for c in comps])
             if variable in n:
                 v = n[variable]
                 if isinstance(v, list):
@@ -247,6 +276,10 @@ def make_base(spec, mixins=()):
 
         def _path_sym(self):
             out = {}
+            for n in self._spec.get("path_variables", []):
+                if "#" in n:
+                    base, k = n.split("#")
+                    out[n] = self.state(base)[int(k)]
             for n in list(self._sym):
                 if n.startswith("der("):
                     out[n] = self.der(n[4:-1])
